@@ -10,7 +10,7 @@ use serde::{Deserialize, Serialize};
 use serde_json::{json, Value};
 use std::collections::BTreeSet;
 
-pub const CONTEXTS: [&str; 10] = [
+pub const CONTEXTS: [&str; 12] = [
     "@",
     "Option<@>",
     "Vec<@>",
@@ -21,6 +21,9 @@ pub const CONTEXTS: [&str; 10] = [
     "Vec<Option<@>>",
     "BTreeMap<(i32, @), String>",
     "Option<(@, HashMap<String, Vec<i32>>)>",
+    // spelled with a module path instead of an import
+    "models::@",
+    "Vec<crate::models::@>",
 ];
 
 /// spellings of "derives Serialize/Deserialize"
@@ -41,8 +44,14 @@ pub enum Root {
     ReturnErr,
     Channel,
     Event,
+    /// event payload bound by an annotated `let` whose initialiser names something else
+    EventLet,
 }
-pub const ROOTS: [Root; 5] = [Root::Param, Root::ReturnOk, Root::ReturnErr, Root::Channel, Root::Event];
+pub const ROOTS: [Root; 6] = [Root::Param, Root::ReturnOk, Root::ReturnErr, Root::Channel, Root::Event, Root::EventLet];
+
+/// naming schemes for the nodes: plain, names that start with a container's name, names that embed
+/// other words the analyser looks for
+pub const NAMINGS: [[&str; 4]; 3] = [["N0", "N1", "N2", "N3"], ["Options", "Vector3", "ResultSummary", "OptionSet"], ["HashMapper", "Boxed", "Channels", "BTreeSetting"]];
 
 #[derive(Debug, Clone, Serialize, Deserialize)]
 pub struct Case {
@@ -60,13 +69,15 @@ pub struct Case {
     #[serde(default)]
     pub derive_style: usize,
     pub zod: bool,
-}
-
-fn node_name(i: usize) -> String {
-    format!("N{}", i)
+    /// index into NAMINGS
+    #[serde(default)]
+    pub naming: usize,
 }
 
 impl Case {
+    pub fn name(&self, i: usize) -> String {
+        NAMINGS[self.naming % NAMINGS.len()][i % 4].to_string()
+    }
     pub fn edges(&self) -> Vec<(usize, usize)> {
         let mut v = vec![];
         for u in 0..self.n {
@@ -84,29 +95,29 @@ impl Case {
     fn node_def(&self, u: usize) -> String {
         let derive = DERIVE_STYLES[(self.derive_style + u * (self.derive_style != 0) as usize) % DERIVE_STYLES.len()];
         if self.has_out(u) {
-            let mut s = format!("{}pub struct {} {{\n    pub id: i32,\n", derive, node_name(u));
+            let mut s = format!("{}pub struct {} {{\n    pub id: i32,\n", derive, self.name(u));
             for (ei, (a, b)) in self.edges().iter().enumerate() {
                 if *a == u {
                     let c = match self.deviate {
                         Some((e, c)) if e == ei => c,
                         _ => self.ctx,
                     };
-                    s.push_str(&format!("    pub to_{}: {},\n", b, CONTEXTS[c].replace('@', &node_name(*b))));
+                    s.push_str(&format!("    pub to_{}: {},\n", b, CONTEXTS[c].replace('@', &self.name(*b))));
                 }
             }
             s.push_str("}\n");
             s
         } else {
             match u % 3 {
-                0 => format!("{}pub struct {} {{ pub id: i32 }}\n", derive, node_name(u)),
-                1 => format!("{}pub enum {} {{ First, Second }}\n", derive, node_name(u)),
-                _ => format!("{}pub struct {};\n", derive, node_name(u)),
+                0 => format!("{}pub struct {} {{ pub id: i32 }}\n", derive, self.name(u)),
+                1 => format!("{}pub enum {} {{ First, Second }}\n", derive, self.name(u)),
+                _ => format!("{}pub struct {};\n", derive, self.name(u)),
             }
         }
     }
     pub fn project(&self) -> Project {
         let header = format!("{}use tauri::{{AppHandle, Emitter}};\nuse tauri::ipc::Channel;\n", gen::PRELUDE);
-        let root_ty = CONTEXTS[self.ctx].replace('@', "N0");
+        let root_ty = CONTEXTS[self.ctx].replace('@', &self.name(0));
         let mut cmd = String::new();
         match self.root {
             Root::Param => cmd.push_str(&format!("#[tauri::command]\npub fn entry(p: {}) -> bool {{ let _ = p; true }}\n", root_ty)),
@@ -115,6 +126,10 @@ impl Case {
             Root::Channel => cmd.push_str(&format!("#[tauri::command]\npub fn entry(ch: Channel<{}>) -> bool {{ let _ = ch; true }}\n", root_ty)),
             Root::Event => cmd.push_str(&format!(
                 "#[tauri::command]\npub fn entry() -> bool {{ true }}\npub fn fire(app: &AppHandle, p: {}) {{ app.emit(\"fired\", p).unwrap(); }}\n",
+                root_ty
+            )),
+            Root::EventLet => cmd.push_str(&format!(
+                "#[tauri::command]\npub fn entry() -> bool {{ true }}\npub fn fire(app: &AppHandle) {{\n    let p: {} = Default::default();\n    app.emit(\"fired\", p).unwrap();\n}}\n",
                 root_ty
             )),
         }
@@ -167,7 +182,7 @@ impl Case {
                 }
             }
         }
-        reach.into_iter().map(node_name).collect()
+        reach.into_iter().map(|i| self.name(i)).collect()
     }
 }
 
@@ -277,7 +292,13 @@ pub fn run(tier: Tier) -> CheckResult {
                     if tier == Tier::Quick && zod && (gi + ctx) % 2 == 0 {
                         continue;
                     }
-                    cases.push(Case { n: *n, mask: *mask, root, ctx, deviate: None, layout, derive_style: if (gi + ctx) % 2 == 0 { 0 } else { (gi + ctx + root as usize) % DERIVE_STYLES.len() }, zod });
+                    cases.push(Case { n: *n, mask: *mask, root, ctx, deviate: None, layout, derive_style: if (gi + ctx) % 2 == 0 { 0 } else { (gi + ctx + root as usize) % DERIVE_STYLES.len() }, zod, naming: 0 });
+                    // the other naming schemes on the direct and the Option context
+                    if ctx <= 1 && *n <= 3 {
+                        for naming in 1..NAMINGS.len() {
+                            cases.push(Case { n: *n, mask: *mask, root, ctx, deviate: None, layout, derive_style: 0, zod, naming });
+                        }
+                    }
                 }
             }
             // one edge deviates: for graphs with >= 2 edges, each edge gets each other context once
@@ -285,7 +306,7 @@ pub fn run(tier: Tier) -> CheckResult {
             if n_edges >= 2 && *n <= 3 && (tier == Tier::Thorough || gi % 4 == 0) {
                 for e in 0..n_edges {
                     for c in 1..CONTEXTS.len() {
-                        cases.push(Case { n: *n, mask: *mask, root, ctx: 0, deviate: Some((e, c)), layout: (gi + e) % 3, derive_style: (gi + e + c) % DERIVE_STYLES.len(), zod: (gi + e + c) % 2 == 0 });
+                        cases.push(Case { n: *n, mask: *mask, root, ctx: 0, deviate: Some((e, c)), layout: (gi + e) % 3, derive_style: (gi + e + c) % DERIVE_STYLES.len(), zod: (gi + e + c) % 2 == 0, naming: 0 });
                     }
                 }
             }
@@ -328,7 +349,7 @@ pub fn run(tier: Tier) -> CheckResult {
     res.coverage.set("outputs_not_parsable_here", not_parsable);
     res.coverage.set("exhaustive", exhaustive);
     res.coverage.set("samples", json!(cases.iter().step_by((cases.len() / 5).max(1)).take(5).collect::<Vec<_>>()));
-    res.coverage.set("rule", "type dependency graphs: every labelled digraph on 1..3 nodes incl. self-loops and cycles (thorough: plus 4 nodes with <= 5 edges); nodes with out-edges are structs, leaves rotate over struct / unit-variant enum / unit struct; root N0 referenced from each of {parameter, Result ok-arm, Result err-arm, channel message, event payload}; every edge and the root reference realised through each of 10 constructor contexts (uniform) and with one edge deviating; 3 file layouts (one file, one file per node in nested directories, commands before types); unreachable nodes plus a non-serde struct and an unused serde struct as decoys; oracle: the exported type declarations of types.ts (minus *Params) equal the least fixpoint of reachability from the root (empty for the err-arm root), none twice; in Zod mode schemas and type aliases agree. Non-trivial = graph has at least one edge and the project was accepted.");
+    res.coverage.set("rule", "type dependency graphs: every labelled digraph on 1..3 nodes incl. self-loops and cycles (thorough: plus 4 nodes with <= 5 edges); nodes with out-edges are structs, leaves rotate over struct / unit-variant enum / unit struct; root referenced from each of {parameter, Result ok-arm, Result err-arm, channel message, event payload as typed parameter, event payload as annotated let with a Default::default() initialiser}; three naming schemes for the nodes (N0.., names that start with a container's name such as Options / Vector3 / ResultSummary, names that embed analyser keywords); every edge and the root reference realised through each of 12 constructor contexts (two of them spelled with a module path) (uniform) and with one edge deviating; 3 file layouts (one file, one file per node in nested directories, commands before types); unreachable nodes plus a non-serde struct and an unused serde struct as decoys; oracle: the exported type declarations of types.ts (minus *Params) equal the least fixpoint of reachability from the root (empty for the err-arm root), none twice; in Zod mode schemas and type aliases agree. Non-trivial = graph has at least one edge and the project was accepted.");
     res.assumptions = vec!["Result arms are used as root contexts only (a Result-typed struct field is outside the documented feature set)".into()];
     res
 }
